@@ -879,7 +879,7 @@ func (k *core) checkMonitorOpsBounded(rule string) {
 				continue
 			}
 			n++
-			isReply := op.Send && op.Sel == nil && (isErrorChan(op.Chan.Type()) || strings.Contains(types.TypeString(op.Chan.Type(), nil), "verifyEnableResp"))
+			isReply := op.Send && op.Sel == nil && (isErrorChan(op.Chan.Type()) || strings.Contains(typeStr(op.Chan.Type()), "verifyEnableResp"))
 			c.check(isReply, rule, relName(f)+"#"+canon(op.Chan), op.Instr.Pos(), "the only blocking operation is the single answer on a roomy reply channel",
 				"a blocking channel operation on "+canon(op.Chan)+" in a function the monitor goroutine calls: if the other side is not there (a consumer took the parked value, nobody reads) the monitor blocks forever and nothing is installed any more")
 		}
